@@ -1,7 +1,9 @@
+(* Proofs about Model/NodeProto.v (C19). *)
 From Coq Require Import List NArith ZArith Bool Lia.
 From Circ Require Import Model.NodeProto.
 Import ListNotations.
 
+(* ------------------------------------------------------------------ escape *)
 Lemma escape_no_tilde : forall s, ~ In TILDE (escape s).
 Proof.
   induction s as [|c t IH]; simpl; [tauto|].
@@ -9,3 +11,634 @@ Proof.
   - intros H. unfold TILDE in H. repeat (destruct H as [H|H]; [discriminate H|]). tauto.
   - simpl. intros [H|H]; [|tauto]. subst c. rewrite N.eqb_refl in E. discriminate.
 Qed.
+
+(* ------------------------------------------------------------------ split *)
+Lemma prefixb_app : forall d x, prefixb d (d ++ x) = true.
+Proof. induction d as [|c d IH]; intros x; simpl; [reflexivity|]. rewrite N.eqb_refl. apply IH. Qed.
+
+Lemma prefixb_short : forall d s, length s < length d -> prefixb d s = false.
+Proof.
+  induction d as [|c d IH]; intros s H; simpl in *; [lia|].
+  destruct s as [|y s]; [reflexivity|]. simpl in H.
+  rewrite IH by lia. apply andb_false_r.
+Qed.
+
+Lemma pieces_skip : forall d a x, pieces d (length a) (a ++ x) = pieces d 0 x.
+Proof. intros d a x. induction a as [|c a IH]; simpl; [reflexivity|exact IH]. Qed.
+
+Lemma pieces_nonempty : forall d k s, pieces d k s <> [].
+Proof.
+  intros d k s. revert k. induction s as [|c s IH]; intros k; [discriminate|].
+  cbn [pieces]. destruct k as [|k]; [|apply IH].
+  destruct (prefixb d (c :: s)); [discriminate|].
+  destruct (pieces d 0 s); discriminate.
+Qed.
+
+Lemma pieces_clean : forall d0 dr e x, ~ In d0 e ->
+  pieces (d0 :: dr) 0 (e ++ x) =
+  match pieces (d0 :: dr) 0 x with h :: r => (e ++ h) :: r | [] => [] end.
+Proof.
+  intros d0 dr e x. destruct (pieces (d0 :: dr) 0 x) as [|h r] eqn:Hx.
+  { exfalso. exact (pieces_nonempty _ _ _ Hx). }
+  induction e as [|c e IH]; intros Hn.
+  - simpl app. exact Hx.
+  - assert (Hc : N.eqb d0 c = false).
+    { apply N.eqb_neq. intros ->. apply Hn. left. reflexivity. }
+    assert (He : ~ In d0 e) by (intros H; apply Hn; right; exact H).
+    change ((c :: e) ++ x) with (c :: (e ++ x)).
+    cbn [pieces]. cbn [prefixb]. rewrite Hc. cbn [andb].
+    rewrite (IH He). reflexivity.
+Qed.
+
+Lemma pieces_delim : forall d0 dr x,
+  pieces (d0 :: dr) 0 ((d0 :: dr) ++ x) = [] :: pieces (d0 :: dr) 0 x.
+Proof.
+  intros d0 dr x. change ((d0 :: dr) ++ x) with (d0 :: (dr ++ x)).
+  cbn [pieces].
+  change (prefixb (d0 :: dr) (d0 :: dr ++ x)) with (prefixb (d0 :: dr) ((d0 :: dr) ++ x)).
+  rewrite prefixb_app.
+  replace (length (d0 :: dr) - 1) with (length dr) by (simpl; lia).
+  rewrite pieces_skip. reflexivity.
+Qed.
+
+Lemma pieces_short : forall d s, length s < length d -> pieces d 0 s = [s].
+Proof.
+  intros d s. induction s as [|c s IH]; intros H; [reflexivity|].
+  cbn [pieces]. rewrite (prefixb_short d (c :: s) H).
+  rewrite IH by (simpl in H; lia). reflexivity.
+Qed.
+
+(* ------------------------------------------------------------------ framing *)
+Section FramingP.
+  Variable P : Type.
+  Variable parse : list N -> option P.
+  Variable enc : P -> list N.
+  Variables (d0 : N) (dr : list N).
+  Let D := d0 :: dr.
+
+  Hypothesis Hrt : forall p, parse (enc p) = Some p.
+  Hypothesis Hclean : forall p, ~ In d0 (enc p).
+  Hypothesis Hpre : forall p q r, enc p = q ++ r -> r <> [] -> parse q = None.
+  Hypothesis Hext : forall p t t', D = t ++ t' -> t <> [] -> t' <> [] -> parse (enc p ++ t) = None.
+  Hypothesis Hdel : forall t t', D = t ++ t' -> t' <> [] -> parse t = None.
+
+  Notation proc := (proc P parse).
+  Notation feed := (feed P parse D).
+  Notation run := (run P parse D).
+  Notation frames := (frames P D enc).
+
+  Definition good (e : list N) : Prop := e = [] \/ exists p, e = enc p.
+
+  Definition Inv (buf rest : list N) (exp : list P) : Prop :=
+    (buf = [] /\ rest = [] /\ exp = []) \/
+    (exists e pend, good e /\ buf ++ rest = e ++ D ++ frames pend /\
+                    exp = opt_list (parse e) ++ pend /\ length buf < length e + length D).
+
+  Lemma Inv_right : forall buf rest e pend exp, good e -> buf ++ rest = e ++ D ++ frames pend ->
+    exp = opt_list (parse e) ++ pend -> length buf < length e + length D -> Inv buf rest exp.
+  Proof. intros. right. exists e, pend. auto. Qed.
+
+  Lemma parse_nil : parse [] = None.
+  Proof. apply (Hdel [] D); [reflexivity|discriminate]. Qed.
+
+  Lemma good_clean : forall e, good e -> ~ In d0 e.
+  Proof. intros e [->|[p ->]]; [intros []|apply Hclean]. Qed.
+
+  Lemma proc_cons : forall x ps, ps <> [] ->
+    proc (x :: ps) = (opt_list (parse x) ++ fst (proc ps), snd (proc ps)).
+  Proof.
+    intros x ps H. destruct ps as [|y ps]; [contradiction|].
+    change (proc (x :: y :: ps)) with (let '(o, b) := proc (y :: ps) in (opt_list (parse x) ++ o, b)).
+    destruct (proc (y :: ps)); reflexivity.
+  Qed.
+
+  Lemma proc_single : forall l, proc [l] = match parse l with Some p => ([p], []) | None => ([], l) end.
+  Proof. reflexivity. Qed.
+
+  Lemma frames_cons : forall p ps, frames (p :: ps) = enc p ++ D ++ frames ps.
+  Proof. intros. unfold NodeProto.frames. simpl. rewrite <- app_assoc. reflexivity. Qed.
+
+  Definition Post (e : list N) (pend : list P) (u rest' : list N) : Prop :=
+    exists out buf' exp', proc (split D u) = (out, buf') /\
+                          opt_list (parse e) ++ pend = out ++ exp' /\ Inv buf' rest' exp'.
+
+  Lemma split_clean1 : forall u, ~ In d0 u -> split D u = [u].
+  Proof.
+    intros u Hc. unfold split. rewrite <- (app_nil_r u) at 1. unfold D.
+    rewrite (pieces_clean d0 dr u [] Hc). simpl. rewrite app_nil_r. reflexivity.
+  Qed.
+
+  (* u ends inside e (or exactly at its end) *)
+  Lemma caseB : forall pend e u l rest', good e -> e = u ++ l -> rest' = l ++ D ++ frames pend ->
+    Post e pend u rest'.
+  Proof.
+    intros pend e u l rest' Hg He Hr. pose proof (good_clean e Hg) as Hce. unfold Post.
+    destruct l as [|l0 l].
+    - rewrite app_nil_r in He. subst u. simpl in Hr.
+      rewrite (split_clean1 e Hce), proc_single.
+      destruct Hg as [->|[p ->]].
+      + rewrite parse_nil. exists [], [], pend.
+        split; [reflexivity|split; [reflexivity|]].
+        apply (Inv_right _ _ [] pend);
+          [left; reflexivity|simpl; rewrite Hr; reflexivity|rewrite parse_nil; reflexivity|simpl; lia].
+      + rewrite Hrt. exists [p], [], pend.
+        split; [reflexivity|split; [reflexivity|]].
+        apply (Inv_right _ _ [] pend);
+          [left; reflexivity|simpl; rewrite Hr; reflexivity|rewrite parse_nil; reflexivity|simpl; lia].
+    - destruct Hg as [->|[p Hp]]; [destruct u; discriminate He|].
+      assert (Hcu : ~ In d0 u). { intros Hi. apply Hce. rewrite He. apply in_or_app. left. exact Hi. }
+      rewrite (split_clean1 u Hcu), proc_single.
+      rewrite (Hpre p u (l0 :: l)) by (try discriminate; rewrite <- Hp; exact He).
+      exists [], u, (opt_list (parse e) ++ pend).
+      split; [reflexivity|split; [reflexivity|]].
+      apply (Inv_right _ _ e pend);
+        [right; exists p; exact Hp| |reflexivity|rewrite He, app_length; simpl; lia].
+      rewrite Hr. rewrite He at 1. rewrite <- app_assoc. reflexivity.
+  Qed.
+
+  (* u ends inside the delimiter that follows e *)
+  Lemma caseA1 : forall pend e u l m0 m rest', good e -> u = e ++ l -> D = l ++ m0 :: m ->
+    rest' = (m0 :: m) ++ frames pend -> Post e pend u rest'.
+  Proof.
+    intros pend e u l m0 m rest' Hg Hu HD Hm. pose proof (good_clean e Hg) as Hce. unfold Post.
+    destruct l as [|l0 l].
+    - rewrite app_nil_r in Hu. subst u.
+      apply (caseB pend e e [] rest' Hg); [rewrite app_nil_r; reflexivity|].
+      rewrite Hm, HD. reflexivity.
+    - assert (Hlen : length (l0 :: l) < length D) by (rewrite HD, app_length; simpl; lia).
+      assert (Hsp : split D u = [e ++ l0 :: l]).
+      { unfold split. rewrite Hu. unfold D. rewrite (pieces_clean d0 dr e (l0 :: l) Hce). fold D.
+        rewrite pieces_short by exact Hlen. reflexivity. }
+      rewrite Hsp, proc_single.
+      assert (Hn : parse (e ++ l0 :: l) = None).
+      { destruct Hg as [->|[p ->]].
+        - simpl. apply (Hdel (l0 :: l) (m0 :: m) HD). discriminate.
+        - apply (Hext p (l0 :: l) (m0 :: m) HD); discriminate. }
+      rewrite Hn. exists [], (e ++ l0 :: l), (opt_list (parse e) ++ pend).
+      split; [reflexivity|split; [reflexivity|]].
+      apply (Inv_right _ _ e pend); [exact Hg| |reflexivity|rewrite app_length; lia].
+      rewrite Hm. transitivity (e ++ ((l0 :: l) ++ m0 :: m) ++ frames pend).
+      { rewrite <- !app_assoc. reflexivity. }
+      rewrite <- HD. reflexivity.
+  Qed.
+
+  (* u covers e and the whole delimiter *)
+  Lemma caseA2 : forall e (exp0 : list P) u m rest', good e -> u = e ++ D ++ m ->
+    (exists out buf' exp', proc (split D m) = (out, buf') /\ exp0 = out ++ exp' /\ Inv buf' rest' exp') ->
+    exists out buf' exp', proc (split D u) = (out, buf') /\
+                          opt_list (parse e) ++ exp0 = out ++ exp' /\ Inv buf' rest' exp'.
+  Proof.
+    intros e exp0 u m rest' Hg Hu (out & buf' & exp' & Hp & He & Hi).
+    pose proof (good_clean e Hg) as Hce.
+    exists (opt_list (parse e) ++ out), buf', exp'.
+    split; [|split; [rewrite He, app_assoc; reflexivity|exact Hi]].
+    unfold split in *. rewrite Hu. unfold D at 1. rewrite (pieces_clean d0 dr e _ Hce). fold D.
+    change (pieces D 0 (D ++ m)) with (pieces (d0 :: dr) 0 ((d0 :: dr) ++ m)).
+    rewrite (pieces_delim d0 dr m). fold D. rewrite app_nil_r.
+    rewrite proc_cons by apply pieces_nonempty. rewrite Hp. reflexivity.
+  Qed.
+
+  Lemma proc_empty : proc (split D []) = ([], []).
+  Proof. unfold split. simpl. rewrite parse_nil. reflexivity. Qed.
+
+  (* what one call of add_buffer does when buffer ++ data = u is a prefix of an honest stream that
+     starts with [e], the delimiter and complete frames *)
+  Lemma G : forall pend e u rest', good e -> u ++ rest' = e ++ D ++ frames pend -> Post e pend u rest'.
+  Proof.
+    induction pend as [|p' pend IH]; intros e u rest' Hg H.
+    all: apply app_eq_app in H; destruct H as [l [[Hu Hr]|[He Hr]]].
+    all: try (apply (caseB _ e u l rest' Hg He Hr)).
+    all: symmetry in Hr; apply app_eq_app in Hr; destruct Hr as [m [[Hl Hm]|[HD Hm]]].
+    - (* pend = [], l = D ++ m *)
+      apply (caseA2 e [] u m rest' Hg); [rewrite Hu, Hl; reflexivity|].
+      simpl in Hm. symmetry in Hm. apply app_eq_nil in Hm. destruct Hm as [-> ->].
+      exists [], [], []. split; [apply proc_empty|split; [reflexivity|left; auto]].
+    - destruct m as [|m0 m].
+      + rewrite app_nil_r in HD. subst l. simpl in Hm. subst rest'.
+        apply (caseA2 e [] u [] [] Hg); [rewrite Hu, app_nil_r; reflexivity|].
+        exists [], [], []. split; [apply proc_empty|split; [reflexivity|left; auto]].
+      + apply (caseA1 [] e u l m0 m rest' Hg Hu HD Hm).
+    - (* pend = p' :: pend, l = D ++ m *)
+      apply (caseA2 e (p' :: pend) u m rest' Hg); [rewrite Hu, Hl; reflexivity|].
+      rewrite frames_cons in Hm. symmetry in Hm.
+      destruct (IH (enc p') m rest' (or_intror (ex_intro _ p' eq_refl)) Hm) as (out & buf' & exp' & Hp & He & Hi).
+      exists out, buf', exp'. split; [exact Hp|split; [|exact Hi]].
+      rewrite Hrt in He. exact He.
+    - destruct m as [|m0 m].
+      + rewrite app_nil_r in HD. subst l. simpl in Hm. subst rest'.
+        apply (caseA2 e (p' :: pend) u [] _ Hg); [rewrite Hu, app_nil_r; reflexivity|].
+        exists [], [], (p' :: pend). split; [apply proc_empty|split; [reflexivity|]].
+        apply (Inv_right _ _ (enc p') pend);
+          [right; exists p'; reflexivity|simpl; apply frames_cons|rewrite Hrt; reflexivity|simpl; lia].
+      + apply (caseA1 (p' :: pend) e u l m0 m rest' Hg Hu HD Hm).
+  Qed.
+
+  Lemma step_inv : forall buf d rest' exp, Inv buf (d ++ rest') exp ->
+    exists out buf' exp', feed buf d = (out, buf') /\ exp = out ++ exp' /\ Inv buf' rest' exp'.
+  Proof.
+    intros buf d rest' exp [(Hb & Hr & He)|(e & pend & Hg & Hs & He & _)].
+    - apply app_eq_nil in Hr. destruct Hr as [-> ->]. subst buf exp.
+      exists [], [], []. split; [|split; [reflexivity|left; auto]].
+      unfold NodeProto.feed, split. simpl. rewrite parse_nil. reflexivity.
+    - rewrite app_assoc in Hs.
+      destruct (G pend e (buf ++ d) rest' Hg Hs) as (out & buf' & exp' & Hp & Hx & Hi).
+      exists out, buf', exp'. split; [exact Hp|split; [rewrite He; exact Hx|exact Hi]].
+  Qed.
+
+  Lemma run_inv : forall cs buf exp, Inv buf (concat cs) exp -> run buf cs = (exp, []).
+  Proof.
+    induction cs as [|c cs IH]; intros buf exp H.
+    - simpl in *. destruct H as [(-> & _ & ->)|(e & pend & _ & Hs & _ & Hl)]; [reflexivity|].
+      rewrite app_nil_r in Hs. rewrite Hs, !app_length in Hl. lia.
+    - simpl concat in H. destruct (step_inv buf c (concat cs) exp H) as (out & buf' & exp' & Hf & He & Hi).
+      cbn [NodeProto.run]. rewrite Hf. rewrite (IH buf' exp' Hi). rewrite He. reflexivity.
+  Qed.
+
+  Theorem framing : forall ps cs, concat cs = frames ps -> run [] cs = (ps, []).
+  Proof.
+    intros ps cs H. apply run_inv. rewrite H. destruct ps as [|p ps].
+    - left. auto.
+    - apply (Inv_right _ _ (enc p) ps);
+        [right; exists p; reflexivity|simpl; apply frames_cons|rewrite Hrt; reflexivity|simpl; lia].
+  Qed.
+
+  Corollary framing_cut_independent : forall ps cs1 cs2,
+    concat cs1 = frames ps -> concat cs2 = frames ps -> run [] cs1 = run [] cs2.
+  Proof. intros ps cs1 cs2 H1 H2. rewrite (framing ps cs1 H1), (framing ps cs2 H2). reflexivity. Qed.
+End FramingP.
+
+(* ------------------------------------------------------------------ strings, association lists *)
+Lemma str_eqb_eq : forall a b, str_eqb a b = true <-> a = b.
+Proof.
+  induction a as [|x a IH]; destruct b as [|y b]; simpl; split; intros H; try reflexivity; try discriminate.
+  - apply andb_true_iff in H. destruct H as [H1 H2]. apply N.eqb_eq in H1. apply IH in H2. subst. reflexivity.
+  - inversion H; subst. rewrite N.eqb_refl. apply IH. reflexivity.
+Qed.
+
+Lemma str_eqb_refl : forall a, str_eqb a a = true.
+Proof. intros. apply str_eqb_eq. reflexivity. Qed.
+
+Lemma str_eqb_neq : forall a b, a <> b -> str_eqb a b = false.
+Proof. intros a b H. destruct (str_eqb a b) eqn:E; [|reflexivity]. apply str_eqb_eq in E. contradiction. Qed.
+
+Lemma get_set_same : forall (k : list N) (v : json) l, get k (set_kv k v l) = Some v.
+Proof.
+  intros k v l. induction l as [|[k' v'] l IH]; simpl.
+  - rewrite str_eqb_refl. reflexivity.
+  - destruct (str_eqb k k') eqn:E; simpl.
+    + rewrite str_eqb_refl. reflexivity.
+    + destruct (str_ltb k k'); simpl; [rewrite str_eqb_refl; reflexivity|]. rewrite E. exact IH.
+Qed.
+
+Lemma get_set_other : forall (k k1 : list N) (v : json) l, k <> k1 -> get k (set_kv k1 v l) = get k l.
+Proof.
+  intros k k1 v l Hn. induction l as [|[k' v'] l IH]; simpl.
+  - rewrite (str_eqb_neq k k1 Hn). reflexivity.
+  - destruct (str_eqb k1 k') eqn:E; simpl.
+    + apply str_eqb_eq in E. subst k'. rewrite (str_eqb_neq k k1 Hn). reflexivity.
+    + destruct (str_ltb k1 k'); simpl.
+      * rewrite (str_eqb_neq k k1 Hn). reflexivity.
+      * destruct (str_eqb k k'); [reflexivity|exact IH].
+Qed.
+
+Lemma get_filter : forall (f : list N -> bool) (k : list N) (l : list (list N * json)),
+  get k (filter (fun p => f (fst p)) l) = if f k then get k l else None.
+Proof.
+  intros f k l. induction l as [|[k' v'] l IH]; simpl; [destruct (f k); reflexivity|].
+  destruct (f k') eqn:Ef; simpl.
+  - destruct (str_eqb k k') eqn:E; [|exact IH].
+    apply str_eqb_eq in E. subst k'. rewrite Ef. reflexivity.
+  - destruct (str_eqb k k') eqn:E; [|exact IH].
+    apply str_eqb_eq in E. subst k'. rewrite Ef in IH |- *. exact IH.
+Qed.
+
+
+Lemma NoDup_filter_keys_Z : forall (f : Z * nat -> bool) l, NoDup (map fst l) -> NoDup (map fst (filter f l)).
+Proof.
+  intros f l. induction l as [|p l IH]; simpl; intros H; [constructor|].
+  inversion H as [|? ? Hni Hnd]; subst.
+  destruct (f p); simpl; [|apply IH; exact Hnd].
+  constructor; [|apply IH; exact Hnd].
+  intros Hi. apply Hni. apply in_map_iff in Hi. destruct Hi as [q [Hq Hin]].
+  apply filter_In in Hin. apply in_map_iff. exists q. tauto.
+Qed.
+
+Lemma NoDup_app_single : forall (l : list Z) x, NoDup l -> ~ In x l -> NoDup (l ++ [x]).
+Proof.
+  induction l as [|y l IH]; intros x Hn Hi; simpl; [constructor; [tauto|constructor]|].
+  inversion Hn; subst. constructor.
+  - intros H. apply in_app_or in H. destruct H as [H|[H|[]]]; [contradiction|]. subst. apply Hi. left. reflexivity.
+  - apply IH; [assumption|]. intros H. apply Hi. right. exact H.
+Qed.
+
+Section MetaP.
+  Variable excl : list (list N).
+
+  Lemma apply_meta_blocked : forall k meta attrs, allowed excl k = false ->
+    get k (apply_meta excl meta attrs) = get k attrs.
+  Proof.
+    intros k meta. induction meta as [|[k1 v1] meta IH]; intros attrs Hk; simpl; [reflexivity|].
+    rewrite IH by exact Hk. destruct (allowed excl k1) eqn:E; [|reflexivity].
+    apply get_set_other. intros ->. rewrite Hk in E. discriminate.
+  Qed.
+
+  Lemma get_notin : forall (k : list N) (l : list (list N * json)), ~ In k (map fst l) -> get k l = None.
+  Proof.
+    intros k l. induction l as [|[k2 v2] l IH]; simpl; intros Hni; [reflexivity|].
+    destruct (str_eqb k k2) eqn:E2.
+    - apply str_eqb_eq in E2. subst. exfalso. apply Hni. left. reflexivity.
+    - apply IH. intros H. apply Hni. right. exact H.
+  Qed.
+
+  Lemma apply_meta_get : forall k meta attrs, NoDup (map fst meta) -> allowed excl k = true ->
+    get k (apply_meta excl meta attrs) = match get k meta with Some v => Some v | None => get k attrs end.
+  Proof.
+    intros k meta. induction meta as [|[k1 v1] meta IH]; intros attrs Hnd Hk; simpl; [reflexivity|].
+    inversion Hnd as [|? ? Hni Hnd']; subst.
+    rewrite IH by assumption.
+    destruct (str_eqb k k1) eqn:E.
+    - apply str_eqb_eq in E. subst k1. rewrite Hk.
+      rewrite (get_notin k meta Hni). apply get_set_same.
+    - destruct (get k meta); [reflexivity|].
+      destruct (allowed excl k1); [|reflexivity].
+      apply get_set_other. intros ->. rewrite str_eqb_refl in E. discriminate.
+  Qed.
+
+  Lemma NoDup_filter_keys : forall (f : list N * json -> bool) l,
+    NoDup (map fst l) -> NoDup (map fst (filter f l)).
+  Proof.
+    intros f l. induction l as [|p l IH]; simpl; intros H; [constructor|].
+    inversion H as [|? ? Hni Hnd]; subst.
+    destruct (f p); simpl; [|apply IH; exact Hnd].
+    constructor; [|apply IH; exact Hnd].
+    intros Hi. apply Hni. apply in_map_iff in Hi. destruct Hi as [q [Hq Hin]].
+    apply filter_In in Hin. apply in_map_iff. exists q. tauto.
+  Qed.
+
+  Lemma blocked_of_excl : forall k, mem_str k excl = true -> allowed excl k = false.
+  Proof. intros k H. unfold allowed. rewrite H. apply andb_false_r. Qed.
+
+  Ltac crack H :=
+    repeat match type of H with
+           | context [match ?x with _ => _ end] => destruct x eqn:?; try discriminate H
+           end.
+
+  (* whatever a peer puts into a call packet: no excluded (or dunder) attribute is set on the event,
+     and the channels are hashable *)
+  Theorem load_event_safe : forall data e id, load_event excl data = Some (e, id) ->
+    (forall k, allowed excl k = false -> get k (eattrs e) = None) /\ forallb hashable (echannels e) = true.
+  Proof.
+    intros data e id H. unfold load_event in H. crack H.
+    inversion H; subst; clear H. simpl. split; [|assumption].
+    intros k Hk. rewrite apply_meta_blocked by exact Hk. reflexivity.
+  Qed.
+
+  Theorem load_event_dispatch_safe : forall data e id, load_event excl data = Some (e, id) ->
+    mem_str k_cause excl = true -> dispatch_safe e = true.
+  Proof.
+    intros data e id H Hc. destruct (load_event_safe data e id H) as [Ha Hh].
+    unfold dispatch_safe. rewrite Hh. rewrite (Ha k_cause (blocked_of_excl _ Hc)). reflexivity.
+  Qed.
+
+  Theorem load_value_safe : forall o v id er meta, load_value excl o = LvOk v id er meta ->
+    forall k, allowed excl k = false -> get k meta = None.
+  Proof.
+    intros o v id er meta H k Hk. unfold load_value in H. crack H.
+    inversion H; subst; clear H.
+    rewrite (get_filter (allowed excl)). rewrite Hk. reflexivity.
+  Qed.
+
+  (* serialisation: load_event (dump_event e id) gives back name, args, kwargs, flags, channels, id *)
+  Definition wf_event (e : event) : Prop :=
+    existsb (N.eqb 0) (ename e) = false /\
+    mem_str k__name (map fst (ekwargs e)) = false /\ mem_str k_cls (map fst (ekwargs e)) = false /\
+    mem_str k_self (map fst (ekwargs e)) = false /\
+    forallb hashable (echannels e) = true.
+
+  Theorem serial : forall e id, wf_event e ->
+    load_event excl (event_data excl e id) =
+    Some ({| ename := ename e; eargs := eargs e; ekwargs := ekwargs e; esuccess := esuccess e;
+             efailure := efailure e; enotify := enotify e; echannels := echannels e;
+             eattrs := apply_meta excl (dump_meta_ev excl e) [] |}, id).
+  Proof.
+    intros e id (Hn & H1 & H2 & H3 & Hh). unfold load_event, event_data.
+    change (get k_name _) with (Some (JStr (ename e))).
+    change (get k_args _) with (Some (JArr (eargs e))).
+    change (get k_kwargs _) with (Some (JObj (ekwargs e))).
+    change (get k_success _) with (Some (JBool (esuccess e))).
+    change (get k_failure _) with (Some (JBool (efailure e))).
+    change (get k_notify _) with (Some (JBool (enotify e))).
+    change (get k_channels _) with (Some (JArr (echannels e))).
+    change (get k_meta _) with (Some (JObj (dump_meta_ev excl e))).
+    change (get k_id _) with (Some id).
+    cbn [iter_json as_dict truthy]. rewrite H1, H2, H3, Hn, Hh. reflexivity.
+  Qed.
+
+  Theorem serial_attrs : forall e k, NoDup (map fst (eattrs e)) ->
+    get k (apply_meta excl (dump_meta_ev excl e) []) =
+    if allowed excl k then get k (eattrs e) else None.
+  Proof.
+    intros e k Hnd. destruct (allowed excl k) eqn:Hk.
+    - rewrite apply_meta_get; [|apply NoDup_filter_keys; exact Hnd|exact Hk].
+      unfold dump_meta_ev. rewrite (get_filter (fun k => negb (mem_str k excl))).
+      unfold allowed in Hk. apply andb_true_iff in Hk. destruct Hk as [_ Hk]. rewrite Hk.
+      destruct (get k (eattrs e)); reflexivity.
+    - apply apply_meta_blocked. exact Hk.
+  Qed.
+
+  (* firewalls *)
+  Variable dumps : json -> option (list N).
+  Variable loads : list N -> option (option json).
+  Variable D : list N.
+  Variables fw_send fw_recv : event -> bool.
+  Variable handler : event -> option (option json).
+  Variable b_chan : json.
+
+  Notation b_packet := (b_packet excl dumps D fw_recv handler b_chan).
+  Notation a_send := (a_send excl dumps D fw_send).
+
+  Definition dispatched (r : list event * list N * list N * bool * bool) : list event :=
+    let '(l, _, _, _, _) := r in l.
+
+  (* a call rejected by the receive firewall is never dispatched, whatever the packet *)
+  Theorem firewall_recv : forall j e id, load_event excl j = Some (e, id) -> fw_recv e = false ->
+    dispatched (b_packet j) = [].
+  Proof.
+    intros j e id Hl Hf. unfold NodeProto.b_packet.
+    destruct (is_miss j); [reflexivity|].
+    destruct (is_value j) as [o|].
+    - destruct (load_value excl o); reflexivity.
+    - rewrite Hl, Hf. destruct (packet dumps D _); reflexivity.
+  Qed.
+
+  (* every packet makes B dispatch at most one event, and only one that passed the firewall *)
+  Theorem dispatch_at_most_once : forall j, length (dispatched (b_packet j)) <= 1.
+  Proof.
+    intros j. unfold NodeProto.b_packet.
+    destruct (is_miss j); [simpl; lia|].
+    destruct (is_value j) as [o|].
+    - destruct (load_value excl o); simpl; lia.
+    - destruct (load_event excl j) as [[e id]|]; [|simpl; lia].
+      destruct (fw_recv e).
+      + match goal with |- context [handler ?x] => destruct (handler x) as [[r|]|] end;
+          repeat match goal with |- context [if ?c then _ else _] => destruct c end;
+          repeat match goal with |- context [match packet ?a ?b ?c with _ => _ end] => destruct (packet a b c) end;
+          simpl; lia.
+      + destruct (packet dumps D _); simpl; lia.
+  Qed.
+
+  (* an honest call packet whose event passes the firewall and has a handler runs exactly once *)
+  Theorem dispatch_exactly_once : forall e id r, wf_event e ->
+    let e1 := {| ename := ename e; eargs := eargs e; ekwargs := ekwargs e; esuccess := esuccess e;
+                 efailure := efailure e; enotify := enotify e; echannels := echannels e;
+                 eattrs := apply_meta excl (dump_meta_ev excl e) [] |} in
+    let e2 := {| ename := ename e; eargs := eargs e; ekwargs := ekwargs e; esuccess := true;
+                 efailure := efailure e; enotify := enotify e;
+                 echannels := match echannels e with [] => [b_chan] | l => l end;
+                 eattrs := apply_meta excl (dump_meta_ev excl e) [] |} in
+    is_miss (event_data excl e id) = false -> fw_recv e1 = true -> handler e2 = Some r ->
+    dispatched (b_packet (event_data excl e id)) = [e2].
+  Proof.
+    intros e id r Hwf e1 e2 Hm Hf Hh. unfold NodeProto.b_packet. rewrite Hm.
+    change (is_value (event_data excl e id)) with (@None (list (list N * json))).
+    rewrite (serial e id Hwf). change (fw_recv _) with (fw_recv e1). rewrite Hf.
+    change (handler _) with (handler e2). rewrite Hh. destruct r as [r|]; [|reflexivity].
+    destruct (no_reply id); [reflexivity|]. destruct (packet dumps D _); reflexivity.
+  Qed.
+
+  (* a call rejected by the send firewall writes nothing and consumes no id *)
+  Theorem firewall_send : forall s e, fw_send e = false ->
+    wab (a_send s e) = wab s /\ a_nid (a_send s e) = a_nid s /\ a_pend (a_send s e) = a_pend s.
+  Proof. intros s e H. unfold NodeProto.a_send. rewrite H. simpl. auto. Qed.
+
+  (* the answer to call [id] reaches exactly the waiting call registered under [id] *)
+  Theorem result_routing : forall pend calls id i v er e,
+    zget id pend = Some i -> is_miss (value_data excl (JInt id) er v e) = false ->
+    a_packet excl pend calls (value_data excl (JInt id) er v e) =
+    (upd i (fun c => set_value c v er (filter (fun p => allowed excl (fst p)) (dump_meta excl e))) calls,
+     false, false).
+  Proof.
+    intros pend calls id i v er e Hz Hm. unfold a_packet. rewrite Hm.
+    unfold value_data, is_value. change (get k_value _) with (Some v).
+    unfold load_value. change (get k_meta _) with (Some (JObj (dump_meta excl e))).
+    change (get k_value _) with (Some v). change (get k_id _) with (Some (JInt id)).
+    change (get k_errors _) with (Some er). cbn [hashable id_key]. rewrite Hz. reflexivity.
+  Qed.
+
+  (* ids of the calls in flight are pairwise distinct, for every schedule and every hostile input *)
+  Notation step := (step excl dumps loads D fw_send fw_recv handler b_chan).
+  Definition ids_ok (s : st) : Prop :=
+    NoDup (map fst (a_pend s)) /\ Forall (fun p => (fst p < a_nid s)%Z) (a_pend s).
+
+  Lemma ids_ok_filter : forall f s s', ids_ok s -> a_nid s' = a_nid s -> a_pend s' = filter f (a_pend s) -> ids_ok s'.
+  Proof.
+    intros f s s' [Hn Hl] Hnid Hp. unfold ids_ok. rewrite Hp, Hnid. split.
+    - apply NoDup_filter_keys_Z. exact Hn.
+    - apply Forall_forall. intros p Hi. apply filter_In in Hi. rewrite Forall_forall in Hl. apply Hl. tauto.
+  Qed.
+
+  Lemma step_ids : forall s o, ids_ok s -> ids_ok (step s o).
+  Proof.
+    intros s o H. destruct o as [e|b|b|n|n]; cbn [NodeProto.step].
+    - unfold NodeProto.a_send. destruct (fw_send e); [|exact H].
+      destruct (packet dumps D _); [|exact H].
+      destruct H as [Hn Hl]. unfold ids_ok. cbn [a_pend a_nid]. split.
+      + rewrite map_app. simpl. apply NoDup_app_single; [exact Hn|].
+        intros Hi. apply in_map_iff in Hi. destruct Hi as [p [Hp Hin]].
+        rewrite Forall_forall in Hl. specialize (Hl p Hin). lia.
+      + apply Forall_app. split.
+        * eapply Forall_impl; [|exact Hl]. intros p Hp. simpl in *. lia.
+        * constructor; [simpl; lia|constructor].
+    - exact H.
+    - exact H.
+    - destruct (take n (wab s)) as [d rest]. destruct d; [exact H|].
+      unfold b_read. cbn [b_buf]. destruct (feed json _ D _ _) as [js buf].
+      destruct (b_packets _ _ _ _ _ _ js) as [[[[l o] ol] ab] bd]. exact H.
+    - destruct (take n (wba s)) as [d rest]. destruct d; [exact H|].
+      unfold a_read. cbn [a_buf a_pend a_calls]. destruct (feed json _ D _ _) as [js buf].
+      destruct (a_packets _ _ _ js) as [[calls ab] bd].
+      eapply (ids_ok_filter _ s); [exact H|reflexivity|reflexivity].
+  Qed.
+
+  Theorem ids_unique : forall ops, NoDup (map fst (a_pend (exec excl dumps loads D fw_send fw_recv handler b_chan ops))).
+  Proof.
+    intros ops. unfold exec.
+    assert (H : forall s, ids_ok s -> ids_ok (fold_left step ops s)).
+    { induction ops as [|o ops IH]; intros s Hs; [exact Hs|]. simpl. apply IH. apply step_ids. exact Hs. }
+    apply H. split; [constructor|constructor].
+  Qed.
+End MetaP.
+
+(* ------------------------------------------------------------------ a toy codec satisfying the framing premises *)
+Module Toy.
+  Local Open Scope N_scope.
+  Definition enc (b : bool) : list N := if b then [49] else [48; 48].
+  Definition parse (s : list N) : option bool :=
+    match s with [49] => Some true | [48; 48] => Some false | _ => None end.
+  Definition d0 : N := 126.
+  Definition dr : list N := [126; 126].
+
+  Lemma Hrt : forall p, parse (enc p) = Some p. Proof. destruct p; reflexivity. Qed.
+  Lemma Hclean : forall p, ~ In d0 (enc p).
+  Proof. destruct p; simpl; unfold d0; intros H; repeat (destruct H as [H|H]; [discriminate H|]); exact H. Qed.
+  Lemma Hpre : forall p q r, enc p = q ++ r -> r <> [] -> parse q = None.
+  Proof.
+    intros p q r H Hr. destruct p; simpl in H; destruct q as [|a [|b [|c q]]]; simpl in H;
+      try reflexivity; inversion H; subst; try reflexivity; try congruence;
+      try (destruct q; discriminate).
+  Qed.
+  Lemma Hext : forall p t t', d0 :: dr = t ++ t' -> t <> [] -> t' <> [] -> parse (enc p ++ t) = None.
+  Proof.
+    intros p t t' H Ht Ht'. destruct t as [|a t]; [congruence|]. inversion H; subst.
+    destruct p; simpl; [reflexivity|]. destruct t; reflexivity.
+  Qed.
+  Lemma Hdel : forall t t', d0 :: dr = t ++ t' -> t' <> [] -> parse t = None.
+  Proof.
+    intros t t' H Ht'. destruct t as [|a [|b [|c [|x t]]]]; try reflexivity; simpl in H; inversion H; subst;
+      try congruence; try (destruct t; discriminate); try reflexivity.
+  Qed.
+
+  Theorem toy_framing : forall ps cs, concat cs = frames bool (d0 :: dr) enc ps ->
+    run bool parse (d0 :: dr) [] cs = (ps, []).
+  Proof. exact (framing bool parse enc d0 dr Hrt Hclean Hpre Hext Hdel). Qed.
+End Toy.
+
+(* ------------------------------------------------------------------ one concrete exchange *)
+Module Ex.
+  Local Open Scope N_scope.
+  Definition excl : list (list N) := dispatcher_attrs ++ [k_name; k_args; k_value].
+  Definition ev (name : list N) : event :=
+    {| ename := name; eargs := [JInt 7%Z]; ekwargs := [(k_value, JInt 1%Z)]; esuccess := false;
+       efailure := false; enotify := false; echannels := [JStr [42]]; eattrs := [([116], JInt 3%Z)] |}.
+  Definition e0 := ev [101; 48].
+  Definition call_data := event_data excl e0 (JInt 0%Z).
+  Definition loaded : event := match load_event excl call_data with Some (e, _) => e | None => e0 end.
+  Definition result : json := JArr [JStr [111; 107]].
+  Definition reply_data := value_data excl (JInt 0%Z) (JBool false) result loaded.
+  Definition is_call (j : json) : bool :=
+    match j with JObj o => match get k_name o with Some _ => true | None => false end | _ => false end.
+  Definition dumps (j : json) : option (list N) := Some (if is_call j then [65] else [66]).
+  Definition loads (b : list N) : option (option json) :=
+    match b with [65] => Some (Some call_data) | [66] => Some (Some reply_data) | _ => Some None end.
+  Definition D : list N := [126; 126; 126].
+  Definition final (h : event -> option (option json)) (cut : nat) : st :=
+    exec excl dumps loads D (fun _ => true) (fun _ => true) h (JStr [110]) 
+         [OSend e0; OAB cut; OAB 0%nat; OBA cut; OBA 0%nat].
+
+  Lemma roundtrip : forall cut, In cut [0; 1; 2; 3]%nat ->
+    map c_val (a_calls (final (fun _ => Some (Some result)) cut)) = [result]
+    /\ map c_fin (a_calls (final (fun _ => Some (Some result)) cut)) = [true]
+    /\ length (b_log (final (fun _ => Some (Some result)) cut)) = 1%nat.
+  Proof. intros cut H. simpl in H. repeat (destruct H as [<-|H]; [vm_compute; auto|]). contradiction. Qed.
+
+  (* the handler raises on the peer: the call is dispatched once, but the sender is never told *)
+  Lemma error_lost : map c_fin (a_calls (final (fun _ => Some None) 0%nat)) = [false]
+    /\ length (b_log (final (fun _ => Some None) 0%nat)) = 1%nat.
+  Proof. vm_compute. auto. Qed.
+  Lemma error_lost_ex : exists h cut,
+    length (b_log (final h cut)) = 1%nat /\ map c_fin (a_calls (final h cut)) = [false].
+  Proof. exists (fun _ => Some None), 0%nat. destruct error_lost as [H1 H2]. split; assumption. Qed.
+
+  Lemma e0_wf : wf_event e0 /\ NoDup (map fst (eattrs e0)).
+  Proof. repeat split; try reflexivity. repeat constructor. simpl. tauto. Qed.
+End Ex.
